@@ -44,7 +44,7 @@ theorem C07_writeFromRoot (a : Attrs) (t sel : Tree) (target : List String) (opt
       subst hsel
       simp only [Tree.rootedWF, Bool.and_eq_true, beq_iff_eq, Tree.info_mk] at hw
       have hv : validName i.name = true := infoWF_validName (Tree.wf_info hw.1.1)
-      unfold writeFromRoot
+      unfold writeFromRoot rootFilled
       simp only [Tree.info_mk, rootgroup_eq i hw.2, bind, Except.bind, pure, Except.pure, Tree.name_mk]
       rw [createIn_fresh _ _ _ _ hv (by simp [alookup])]
       simp [encode, encodeKids, nodeGroup]
@@ -56,7 +56,7 @@ theorem C07_writeFromRoot (a : Attrs) (t sel : Tree) (target : List String) (opt
       simp only [selSpec, Option.some.injEq] at hsel
       subst hsel
       have := writeFromRoot_whole a _ hw
-      unfold writeFromRoot at this ⊢
+      unfold writeFromRoot rootFilled at this ⊢
       exact this
   | cons n p =>
     simp only [selSpec, Option.map_eq_some_iff] at hsel
@@ -67,7 +67,7 @@ theorem C07_writeFromRoot (a : Attrs) (t sel : Tree) (target : List String) (opt
     have hv : validName i.name = true := infoWF_validName (Tree.wf_info hwf)
     simp only [Tree.wf, Bool.and_eq_true] at hwf
     obtain ⟨hi, hk⟩ := hwf
-    unfold writeFromRoot
+    unfold writeFromRoot rootFilled
     simp only [Tree.info_mk, rootgroup_eq i hgt, hd, bind, Except.bind, pure, Except.pure, Tree.name_mk]
     cases opt with
     | no =>
